@@ -201,17 +201,27 @@ def columns_by_base_row(eng, element_id=3, measure="row_percent", direction="asc
     return structure_obs(eng, corder, values, direction != "ascending", [2], [], w.cat_ids(1))
 
 
-def columns_by_inserted_row(eng, insertion_id=2, measure="count_weighted", direction="descending"):
-    """columns (with two column subtotals) sorted by an inserted (subtotal) row"""
+def columns_by_inserted_row(eng, insertion_id=2, measure="count_weighted", direction="descending", override=False):
+    """columns (with two column subtotals) sorted by an inserted (subtotal) row. override: the analysis re-lists the row
+    subtotals of the variable (with ids) in the opposite order - the sort key is the row with the requested id"""
     cols = ("cat", "b", 3, {"missing_at": (0,), "insertions": [S("c12", [1, 2]), S("c23", [2, 3], anchor=1)]})
-    rows = ("cat", "a", 3, {"missing_at": (1,), "insertions": [S("r12", [1, 2], anchor="top"), S("r23", [2, 3])]})
+    rins = [S("r12", [1, 2], anchor="top"), S("r23", [2, 3])]
+    if override:
+        rins = [dict(rins[0], id=1), dict(rins[1], id=2)]
+    rows = ("cat", "a", 3, {"missing_at": (1,), "insertions": rins})
     w = CellWorld(eng, [rows, cols])
     tr = {"columns_dimension": {"order": {"type": "opposing_insertion", "insertion_id": insertion_id, "measure": measure, "direction": direction}}}
+    if override:
+        tr["rows_dimension"] = {"insertions": [dict(rins[1]), dict(rins[0])]}
     T = Cube(w.response(), transforms=tr).partitions[0]
     corder = [int(i) for i in T.column_order()]
     rorder = [int(i) for i in T.row_order()]
-    # insertion ids of view insertions without ids: 1-based rank in payload display order: r12 (top) = 1, r23 (bottom) = 2
-    ir = rorder.index(-1 if insertion_id == 2 else -2)
+    if override:
+        # negative offsets follow the analysis list: -2 = r23 (id 2), -1 = r12 (id 1)
+        ir = rorder.index(-2 if insertion_id == 2 else -1)
+    else:
+        # insertion ids of view insertions without ids: 1-based rank in payload display order: r12 (top) = 1, r23 (bottom) = 2
+        ir = rorder.index(-1 if insertion_id == 2 else -2)
     M = getattr(T, MEASURE_PROP[measure]).view(np.ndarray)
     values = [M[ir, j] for j in range(len(corder))]
     return structure_obs(eng, corder, values, direction != "ascending", [], [], w.cat_ids(1))
@@ -283,6 +293,7 @@ def specs(tier):
         add("rows by marginal %s" % mg, "by_marginal", dict(marginal=mg, direction="ascending" if mg == "weighted_base" else "descending", fixed={"top": [2]}))
     add("columns by base row", "columns_by_base_row", dict())
     add("columns by inserted row desc", "columns_by_inserted_row", dict())
+    add("columns by inserted row, analysis re-lists the variable's subtotals in another order", "columns_by_inserted_row", dict(insertion_id=2, override=True))
     add("columns by inserted row asc (col_percent)", "columns_by_inserted_row", dict(insertion_id=1, measure="col_percent", direction="ascending"))
     add("rows by label", "by_label", dict())
     add("strand by count desc, fixed bottom", "strand_by_measure", dict(fixed={"bottom": [2]}))
